@@ -434,7 +434,15 @@ def _select(ctx, progs):
             if s["fn"] != "runtime":
                 continue
             by_group.setdefault((name, s["level"]), []).append(s)
-    keys = sorted(by_group)
+    # hand-written IR programs: one group per program holding the invocations of all its pipelines (always included)
+    hand_keys = []
+    for (name, lvl) in sorted(by_group):
+        if progs[name].get("hand"):
+            by_group.setdefault((name, "hand"), []).extend(by_group.pop((name, lvl)))
+    hand_keys = sorted(k for k in by_group if k[1] == "hand")
+    for k in hand_keys:
+        by_group[k].sort(key=lambda s: s["idx"])
+    keys = sorted(k for k in by_group if k[1] != "hand")
     if not quick:
         # thorough: every program, one level per program (rotating with the seed), every changing pass invocation
         names = sorted({k[0] for k in keys})
@@ -458,7 +466,7 @@ def _select(ctx, progs):
     groups = []
     cover = {}
     storages = [{}, {k: rnd.choice([1, 2, 3, 5, 7, 100, 2 ** 255, 2 ** 256 - 1]) for k in range(6)}]
-    for (name, lvl) in keys:
+    for (name, lvl) in keys + hand_keys:
         pr = progs[name]
         inputs = pr["inputs"][: (6 if quick else 12)]
         if not inputs:
@@ -472,7 +480,7 @@ def _select(ctx, progs):
             rest = [s for s in ss[1:-1]]
             rnd.shuffle(rest)
             rest.sort(key=lambda s: cover.get(s["pass"], 0))
-            pick = forced + rest[:6]
+            pick = forced + rest[:(9 if lvl == "hand" else 6)]
         else:
             pick = ss
         for s in sorted({id(x): x for x in pick}.values(), key=lambda s: s["idx"]):
